@@ -61,6 +61,15 @@ func (c07) Plan(tier string, seed int64) []core.Scenario {
 		out = append(out, core.Sc("streams").WithN("s", 1).WithN("prod", 0).WithN("cons", 0).WithN("etype", 0).WithN("noise", 1).WithL([]int{l}))
 		out = append(out, core.Sc("streams").WithN("s", 2).WithN("prod", 1).WithN("cons", 2).WithN("etype", 0).WithN("noise", 2).WithL([]int{l, 300}))
 	}
+	// a consumer that stops reading for a long stretch (tens of thousands of queued values)
+	big := []int{20000}
+	if tier == "thorough" {
+		big = []int{20000, 50000, 120000}
+	}
+	for _, l := range big {
+		out = append(out, core.Sc("streams").WithN("s", 2).WithN("prod", 1).WithN("cons", 2).WithN("etype", 1).WithN("noise", 0).WithL([]int{l, 50}))
+		out = append(out, core.Sc("streams").WithN("s", 3).WithN("prod", 0).WithN("cons", 2).WithN("etype", 0).WithN("noise", 1).WithL([]int{l, 300, 2}))
+	}
 	nw := 12
 	if tier == "thorough" {
 		nw = 200
@@ -327,6 +336,35 @@ func (c07) streams(sc core.Scenario, r *core.R) {
 	if stalledIdx >= 0 {
 		if sc.L[stalledIdx] > 0 && gots[stalledIdx].n() == 0 {
 			inFlight = true
+		}
+		// the handler of the unread stream must be able to hand over everything (the client buffers it),
+		// and the connection must keep serving calls and new subscriptions while all of it sits unread
+		st := toks[stalledIdx]
+		if etype == 0 || mode == svc.SPrefilled {
+			if !core.Eventually(3*core.Grace, func() bool { return int(env.Svc.Get(st).Sent) >= sc.L[stalledIdx] }) {
+				r.Violate("stalled-subscriber-blocks", "the handler of the unread stream could hand over only %d of %d values: the connection stopped forwarding", env.Svc.Get(st).Sent, sc.L[stalledIdx])
+			}
+		} else {
+			core.Eventually(3*core.Grace, func() bool { return int(env.Svc.Get(st).Sent) >= sc.L[stalledIdx] })
+		}
+		for j := 0; j < 4; j++ {
+			t := Tok("p")
+			o := Go(t, func() (string, error) { return cl.Echo(ctx, t, "") })
+			if !o.Wait(core.Grace) || o.Err != nil || o.Val != svc.Reply(t) {
+				r.Violate("stalled-subscriber-blocks", "with %d values of a subscription unread (%d handed over by the handler), an ordinary call on the same connection got (%q, %v) / blocked; events: %s", sc.L[stalledIdx], env.Svc.Get(st).Sent, o.Val, o.Err, core.Log.Tail(20))
+				break
+			}
+		}
+		if !r.Violated() {
+			t := Tok("s")
+			if start, err := subscribe(ctx, cl, 0, t, 20, svc.SGoroutine); err != nil {
+				r.Violate("stalled-subscriber-blocks", "new subscription while another one is unread failed: %v", err)
+			} else {
+				g := start(0, nil)
+				if !core.WaitCh(g.done, core.Grace) {
+					r.Violate("stalled-subscriber-blocks", "a new subscription made no progress while another one is unread (%d of 20)", g.n())
+				}
+			}
 		}
 		close(stallGate)
 		if !core.WaitCh(gots[stalledIdx].done, 4*core.Grace) {
